@@ -319,6 +319,21 @@ def kernel_closure(patterns):
                 if re.search(r'(?<![\w])' + re.escape(o) + r'(?![\w])', b) or re.search(r'\.' + re.escape(meth) + r'(?![\w])', b):
                     sel.add(o)
                     changed = True
+    # operators: the regenerated bodies apply the PINNED operator instances, so a caller's equation no longer notices a change of the function an
+    # operator is bound to; that function's own equation must therefore be an obligation of every property one of whose items applies the operator
+    inst = {}
+    for it in ITEMS:
+        if it['kind'] == 'raw':
+            m = re.search(r'instance : (?:HMul|HAdd|HSub) \(([A-Za-z]+) K\) \(([A-Za-z]+)(?: K)?\) .*?:= ⟨(\S+?)⟩', it['text'])
+            if m:
+                inst[m.group(3)] = (m.group(1), m.group(2))
+    defs = {m.group(1): m.group(0) for m in re.finditer(r'^def (\S+) .*?:=\n.*?\n\n', txt, re.S | re.M)}
+    for n in list(sel):
+        d = defs.get(n, '')
+        if re.search(r' [*+\-] ', d):
+            for f, (ta, tb) in inst.items():
+                if f not in sel and f in names and re.search(r'\b' + ta + r' K\b', d) and (tb == 'K' or re.search(r'\b' + tb + r'\b', d)):
+                    sel.add(f)
     ff_sel = [n for n in ('FF:floatFuncRows', 'FF:floatSignumBody') if any(re.fullmatch(p, n) for p in patterns)]
     from kernel_items2 import ITEMS as ITEMS2
     k2_sel = sorted('K2:' + it['lean'] for it in ITEMS2 if it['kind'] == 'fn' and any(re.fullmatch(p, 'K2:' + it['lean']) for p in patterns))
@@ -346,7 +361,7 @@ def glue_theorems(pid):
 
 
 # further property files of the same property (written in later rounds): every theorem in them is an obligation of that property
-EXTRA_FILES = {'C18': ['C18S', 'C18T'], 'C03': ['C03Q'], 'C13': ['C13B'], 'C16': ['C16B', 'C16W', 'C16A'], 'C12': ['C12S'], 'C01': ['C01P'], 'C04': ['C04C', 'C04R'], 'C07': ['C07M'], 'C10': ['C10A'], 'C15': ['C15Q'], 'C11': ['C11E']}
+EXTRA_FILES = {'C18': ['C18S', 'C18T'], 'C03': ['C03Q'], 'C13': ['C13B'], 'C16': ['C16B', 'C16W', 'C16A'], 'C12': ['C12S'], 'C01': ['C01P'], 'C04': ['C04C', 'C04R'], 'C07': ['C07M'], 'C10': ['C10A'], 'C15': ['C15Q', 'C15D'], 'C11': ['C11E']}
 
 
 def extra_modules(pid):
